@@ -1,6 +1,7 @@
 import FastorModel.Proofs.Permute
 import FastorModel.Proofs.PermuteMeta
 import FastorModel.Proofs.PermuteOdometer
+import FastorModel.Proofs.PermuteLabels
 import FastorModel.Proofs.Transpose
 import FastorModel.Generated.C14Kernels
 /-
@@ -166,6 +167,18 @@ theorem metafunctions_inverse (p : List Nat) (r : Nat) (hr : 0 < r) (hp : p.Perm
     IsInv p (mappedIndex p) r ∧ IsInv (legacyIdx p) p r ∧ mappedIndex p = legacyIdx p :=
   ⟨isInv_mappedIndex hr hp, isInv_legacyIdx hr hp,
    isInv_unique (isInv_mappedIndex hr hp) (isInv_legacyIdx hr hp).symm⟩
+
+/-- **explicit-output einsum** (`einsum<…, OIndex<o...>>`, C++17): it ends with
+    `permute<permute_mapped_index_t<Index<R...>, Index<O...>>>(res)` where `R` are the (distinct, arbitrary) labels of the
+    contraction result and `O` the requested order.  For every such pair the computed pack is "position in `R` of the
+    label `O[n]`" and is a permutation of `0..n-1`; by `permute_correct` the result therefore has, at place `n`, the axis of
+    `res` that carries the label `O[n]` (extent and elements). -/
+theorem einsum_output_index (R O : List Nat) (hn : R.Nodup) (hne : R ≠ []) (hO : O.Perm R) :
+    mappedIndex2 R O = O.map (fun y => R.idxOf y) ∧ (mappedIndex2 R O).Perm (List.range R.length) :=
+  ⟨mappedIndex2_spec hn hne hO, mappedIndex2_perm hn hne hO⟩
+
+/-- non-vacuity: the labels `5,8,2` requested as `2,5,8` -/
+example : [5, 8, 2].Nodup ∧ [2, 5, 8].Perm [5, 8, 2] ∧ mappedIndex2 [5, 8, 2] [2, 5, 8] = [2, 0, 1] := by decide
 
 /-- **cxx14_eq_cxx17** — the final contents of the result are the same for both standards and both loop skeletons
     (which, moreover, visit their box in the same order: `odometer_eq_cartesian`) -/
